@@ -197,6 +197,13 @@ pub fn build(case: &Case, ctx: &mut CaseCtx) -> Built {
                 }
             }
             required.insert(Key::Addr(anchor.to_string()));
+            // in a third of the cases the multisig holds a seat in its own group: a voter like any other
+            if case.variant % 3 == 1 {
+                must(exec(&mut app, &owner, &group, &cw4_group::msg::ExecuteMsg::UpdateMembers { remove: vec![], add: vec![Member { addr: flex.to_string(), weight: 4 }] }), "group update (the multisig joins)");
+                advance(&mut app, 1, 5);
+                required.insert(Key::Addr(flex.to_string()));
+                ctx.count("flex_voters_with_the_multisig_itself");
+            }
         }
         Listing::FlexVotes => {
             let cands = sorted_addrs(&api, "member", n + 1);
